@@ -670,6 +670,22 @@ impl<Config: endpoint::Config> ApplicationSpace<Config> {
     }
 
     fn key_limits() -> limited::Limits {
+        // verification hook: lets a harness make live connections rotate their 1-RTT keys
+        // every few dozen packets (read once per process; absent => production value)
+        #[cfg(aws_s2n_quic_verif)]
+        {
+            static WINDOW: std::sync::OnceLock<Option<u64>> = std::sync::OnceLock::new();
+            let window = WINDOW.get_or_init(|| {
+                std::env::var("S2N_QUIC_VERIF_KEY_UPDATE_WINDOW")
+                    .ok()
+                    .and_then(|v| v.parse().ok())
+            });
+            if let Some(window) = window {
+                let mut limits = limited::Limits::default();
+                limits.key_update_window = *window;
+                return limits;
+            }
+        }
         limited::Limits::default()
     }
 }
